@@ -33,7 +33,7 @@ CHECKS = {
          'Breadth-first search from every input of length <= 2 over a 10-byte alphabet, all sequences of read / write0 / write1 / '
          'get_output / get_output(allow_incomplete) up to depth 10 (12 thorough) on FixedIO and StandardIO (stdin/stdout replaced), '
          'states de-duplicated by the full attribute dictionary; plus all 2^17-1 written bit strings of length <= 16, all texts of <= 6 bytes that can spell escape sequences (StandardIO echo), the output side of the keyboard device, all 65 793 '
-         'inputs of length <= 2 read to EOF and beyond, inputs of 255..65 538 bytes (boundary lengths around powers of two) read to EOF with and without interleaved writes, all keyboard event scripts of <= 3 events over 32 event kinds (4-event '
+         'inputs of length <= 2 read to EOF and beyond, inputs of 255..65 538 bytes (boundary lengths around powers of two) read to EOF with and without interleaved writes, all keyboard event scripts of <= 3 events over 32 event kinds, each as objects, as text and as text in mixed spellings (any case, 1/0, hex numbers, blanks, comments) (4-event '
          'scripts in thorough) x 40 reads via both constructors, and BrokenIO call sequences.',
          'A device state is its attribute dictionary (equal attributes, equal futures). Same-tic keyboard events are expected in script order.',
          'DESIGN.md section 3 C17'),
@@ -41,7 +41,7 @@ CHECKS = {
          'fault-point enumeration: every IO call index x fault kind x engine/storage/ring mode, state at the stop compared with the reference machine',
          'For every program of a deterministic set (first image per behaviour class of the C01 enumerations, an endless output '
          'loop, stl cat), a fault is injected at every IO call index: library IO error, IOReadOnEOF from read and from write, a '
-         'foreign exception (ValueError, BrokenPipeError, the builtin EOFError), KeyboardInterrupt raised by the device, and a SIGINT made pending inside the call by a pure-C '
+         'foreign exception (ValueError, BrokenPipeError, the builtin EOFError, MemoryError, RecursionError, StopIteration, AssertionError, KeyError), KeyboardInterrupt raised by the device, and a SIGINT made pending inside the call by a pure-C '
          'callable (deterministic), on featured / fast / native flat, hybrid, paged, ring and measurement modes. Exception '
          'mapping, op count, device-side calls, last-ops list and the memory read back through the retained DeviceMemory must '
          'equal R1 after exactly the ops executed before the stop. The interactive window route: every sequence of event batches (<= 3 events, thorough 4, over 10 event kinds; two consecutive pumps with batches <= 2) through PygameWindow.pump_events, WindowKeyEventSource and InteractiveScreen presents on a stand-in pygame module - a batch holding a window-close event ends in KeyboardInterrupt and marks the window closed, other batches never raise and queue the documented key codes in order.',
@@ -82,7 +82,7 @@ CHECKS = {
          'DESIGN.md section 3 C10'),
  'C02': ('exploration',
          'exhaustive enumeration of primitive-statement sequences x width x version vs a denotational assembler model with a behavioural wflip chain walker',
-         'All sequences of up to 3 statements over 41 shapes (ops over literals, string / char literals with hex escapes, backward/forward labels, $, constants, label+-k*w, jump words and return addresses that do not fit, negative wflip values, unary-minus precedence; '
+         'All sequences of up to 3 statements over 42 shapes (ops over literals, string / char literals with hex escapes, chained conditionals, backward/forward labels, $, constants, label+-k*w, jump words and return addresses that do not fit, negative wflip values, unary-minus precedence; '
          'ten wflip forms forcing shared / unshared chains, three-operand wflips with $ in exactly one operand; pad 1/2/4; seven segment placements (incl. one that leaves room for exactly two ops below 2^w); four reserves), depth 4 over a '
          '12-shape core and depth 5 over a 6-shape core (all of depth 4 in thorough), at w=8/16/32/64 and fjm versions: if the '
          'layout is possible the program must assemble and every statement word, label, reserved range and segment must match '
@@ -116,8 +116,8 @@ CHECKS = {
  'C14': ('exploration',
          'exhaustive error templates (error class x evaluation stage x width x version) and all single-token mutations of seed programs; outcome classification',
          '5 arithmetic faults x 16 evaluation stages (parse-time folding, constant definition/use, macro argument, rep count / '
-         'iterator, pad / segment / reserve argument, late label resolution in flip / jump / wflip / segment, $) and ~75 further '
-         'error templates (lexing, syntax, macros incl. recursion through rep, nesting right below / above the default depth, labels declared twice through expansions, diagnostics raised under a label-counted rep, labels, constants, directives, ranges, files) at every width and version, '
+         'iterator, pad / segment / reserve argument, late label resolution in flip / jump / wflip / segment, $) and ~85 further '
+         'error templates (lexing, syntax, macros incl. recursion through rep, nesting right below / above the default depth, labels declared twice through expansions, diagnostics raised under a label-counted rep, every geometry of two / three overlapping segments, labels, constants, directives, ranges, files) at every width and version, '
          'every sequence of <= 3 (4 thorough) primitive statements over a 16-statement alphabet, 45 long-token sources each in its own killable child process (a stall inside C code),  plus every deletion / duplication / swap / substitution (41-token alphabet) of every token of four seed programs (one '
          'with the stl): the outcome must be success or a FlipJumpException that is not the generic "Unknown exception" funnel '
          '(and names the offending identifier for templates that carry one), within 30 s, leaving no loadable output file.',
@@ -125,7 +125,7 @@ CHECKS = {
          'DESIGN.md section 3 C14'),
  'C16': ('exploration',
          'exhaustive program family (C03 skeletons x identifier assignments x 1/2 files) - label instances of the inlined program matched against the saved table; breakpoint resolution over all names and derived substrings',
-         'For ~5 500 (program, width, split) tables: every label instance produced by the R4 inliner must be in the saved table at '
+         'For ~7 400 (program, width, split: one file, two files, two files whose top-level calls share a line number) tables: every label instance produced by the R4 inliner must be in the saved table at '
          'its address (exact name for top-level/extern labels, a distinct name ending in the source label for macro-local ones), '
          'save/load must round-trip (also synthetic tables with unicode / 2 000 entries), and get_breakpoint_handler must resolve '
          'every exact label and every separator-delimited fragment of every name (incl. fragments with ( ) . : { -) to exactly '
@@ -190,8 +190,8 @@ CHECKS = {
          'explicit-state search over assemble-call histories in one process (forked children of a never-assembled parent); probe bytes vs a fresh interpreter process',
          'Every history of depth <= 2 over 28 assemble actions (thorough: also depth 3 over a 9-action core) (stl programs at two widths, no-stl, werror, a parse failure '
          'inside nested namespaces, a lexing error, an unknown macro after the cache was filled, recursion overflow with depth 5, depths '
-         '2000 and 4000, programs defining top-level constants, programs behind a 1- or 2-file stl prefix with one to three user files, a 60 000-label program, a warning-raising program at a fixed path with and without warnings-as-errors, a rep-heavy program, the stl under other short names, a reduced stl built by trimming the list the public get_stl_paths() returned, another user short name, another directory) followed by nineteen '
-         'probe assemblies (different widths, versions, werror, programs using the constants\' names as labels, expressions nested 400 / 700 deep, a 600-term expression inside a macro with the default and a raised depth (F24), an invalid file list whose user file carries an stl short name), rotated so that every probe directly follows every last action: the .fjm and .fjd bytes of every probe must equal those of a brand-new '
+         '2000 and 4000, programs defining top-level constants, programs behind a 1- or 2-file stl prefix with one to three user files, a 60 000-label program, a warning-raising program at a fixed path with and without warnings-as-errors, a rep-heavy program, the stl under other short names, a reduced stl built by trimming the list the public get_stl_paths() returned, another user short name, another directory) followed by twenty-two '
+         'probe assemblies (different widths, versions, werror, programs using the constants\' names as labels, expressions nested 400 / 700 deep, a 600-term expression inside a macro with the default and a raised depth (F24), an invalid file list whose user file carries an stl short name, the failing inputs of the history again), rotated so that every probe directly follows every last action: the .fjm and .fjd bytes of every probe must equal those of a brand-new '
          'interpreter process (two reference processes with different hash seeds and directories must agree as well).',
          'Each history runs in a forked child of a parent that imported flipjump but never assembled. The process-global state key is reported, not used to merge histories.',
          'DESIGN.md section 3 C13'),
@@ -211,7 +211,7 @@ CHECKS = {
          'thorough adds w=16, --werror and all combinations) through `fj files -o`, `fj --asm -o` + `fj --run` (subprocesses of '
          'python -m flipjump.flipjump_cli on the working tree) and the Python API with the same explicit options: the three .fjm '
          '(and .fjd) files must be byte-identical, header width/version as requested or defaulted, program output and termination '
-         'identical (a warning-raising program x --werror x -s x width x version; six spellings of one source path incl. a symlinked directory + `..`; every history of <= 3 API runs on the default terminal device vs fresh fj processes; the API routes run in a process where a caller has taken flipjump.get_stl_paths() and appended to / truncated / reversed its list); the verdicts of run_test_output / assemble_and_run_test_output over 4 endings x 7 expected causes x right / wrong output x raise / return; defaults observed directly: temporary file of the one-step flow is width 64 / version 1, with -o version 3, stl '
+         'identical (a warning-raising program x --werror x -s x width x version; six spellings of one source path incl. a symlinked directory + `..`; every history of <= 3 API runs on the default terminal device vs fresh fj processes; the API routes run in a process where a caller has taken flipjump.get_stl_paths() and appended to / truncated / reversed its list); every ordered pair of five fj calls writing to one -o path (the second behaves as if alone); the verdicts of run_test_output / assemble_and_run_test_output over 4 endings x 7 expected causes x right / wrong output x raise / return; defaults observed directly: temporary file of the one-step flow is width 64 / version 1, with -o version 3, stl '
          'included unless --no_stl.',
          'The one-step temporary file is observed by wrapping flipjump_cli.TemporaryDirectory in-process.',
          'DESIGN.md section 3 C20'),
